@@ -131,6 +131,10 @@ def target (sp : Spec) (id : Id) : Option Reg :=
   | some r => some r
   | none => sp.fb
 
+/-- every registration that has not had its end-of-life call: the registered handlers and the fallback -/
+def liveRegs (sp : Spec) : List Reg :=
+  sp.live.map (·.2) ++ (match sp.fb with | some r => [r] | none => [])
+
 def remove (sp : Spec) (id : Id) : List (Id × Reg) := sp.live.filter (·.1 != id)
 
 /-- same elements, no repetition (the order of several end-of-life calls in one operation is free) -/
@@ -220,8 +224,7 @@ def step (sp : Spec) (op : Op) (out : Out) : Option Spec :=
       else none
     | .fault => none
   | .fini =>
-    let all := sp.live.map (·.2) ++ (match sp.fb with | some r => [r] | none => [])
-    if isOk out.ret && sameSet out.log (all.map .fin) then
+    if isOk out.ret && sameSet out.log (sp.liveRegs.map .fin) then
       some { sp with live := [], fb := none, dflt := 0 }
     else none
 
@@ -232,9 +235,6 @@ def run (sp : Spec) : List (Op × Out) → Option Spec
     match sp.step op out with
     | some sp' => run sp' rest
     | none => none
-
-def liveRegs (sp : Spec) : List Reg :=
-  sp.live.map (·.2) ++ (match sp.fb with | some r => [r] | none => [])
 
 end Spec
 end Mpt.Dispatch
